@@ -30,3 +30,7 @@ def replay(run, P):
 def cnt(run, P):
     from rules import r_cnt
     r_cnt.run(run, P)
+def node(run, P):
+    from rules import r_ownnode
+    r_ownnode.run(run, P)
+    r_ownnode.run_retrans(run, P)
